@@ -63,20 +63,29 @@ class YosysBehavioralRTLIRToVVisitorL2(
 
     begin    = ' begin' if s._needs_begin_end( node.body ) else ''
 
-    cmp_op   = '<' if node.step.value > 0 else '<'
-    inc_op   = '+' if node.step.value > 0 else '-'
+    # The step can be a literal or any constant expression (e.g. a free
+    # variable); the loop variable is a signed integer
+    step     = node.step._value
+    cmp_op   = '<' if step > 0 else '>'
+    inc_op   = '+' if step > 0 else '-'
 
-    step_abs = s.visit( node.step )
-    step_abs = step_abs if node.step.value > 0 else step_abs[ 1 : ]
+    step_abs = s.visit( node.step ) if step > 0 else str( -step )
 
     for stmt in node.body:
       body.extend( s.visit( stmt ) )
     make_indent( body, 1 )
 
+    cond = f'{loop_var} {cmp_op} {end}'
+    if step < 0:
+      # The comparison with a sized (unsigned) bound is unsigned: the loop
+      # variable wraps around instead of getting negative when the last
+      # value is smaller than the step: range(5, 0, -2)
+      cond += f' && {loop_var} <= {start}'
+
     for_begin = \
-      'for ( {v} = {s}; {v} {comp} {t}; {v} = {v} {inc} {stp} ){begin}'.format(
-      v = loop_var, s = start, t = end, stp = step_abs,
-      comp = cmp_op, inc = inc_op, begin = begin
+      'for ( {v} = {s}; {cond}; {v} = {v} {inc} {stp} ){begin}'.format(
+      v = loop_var, s = start, cond = cond, stp = step_abs,
+      inc = inc_op, begin = begin
     )
 
     # Assemble for statement
